@@ -283,13 +283,16 @@ class SilenceTrigger(Monitor):
         self.heal = [None, unit // 2, unit + 50, 2 * unit + 50, 3 * unit + 50][t.weighted([4, 1, 2, 2, 1], "heal after")]
         self.done = False
         self.cut_t = None
+        self.base = None
 
     def on_call(self, w, rec) -> None:
         if self.done:
             return
         hit = False
         if self.mode == 0:
-            hit = rec.seq >= self.n
+            if self.base is None:
+                self.base = rec.seq - 1
+            hit = rec.seq - self.base >= self.n
         else:
             kind = {1: "EOF", 2: "NAK", 3: "FIN", 4: "ACK"}[self.mode]
             hit = any(e.kind == kind for e in rec.emitted)
@@ -326,6 +329,13 @@ def run_one(t):
     w = World(t, cfg)
     ctx = Ctx(w, "silence")
     try:
+        # a quarter of the runs: the handlers already ran a transaction, which the sending user cancelled in half of
+        # the cases (whatever it left behind must not shorten or lengthen the retry procedures of this one)
+        if t.choose(4, "prelude") == 3:
+            from props.pops import prelude
+
+            prelude(w, cancel_after=[None, 2 + t.choose(12, "prelude cancel after")][t.choose(2, "prelude cancelled")],
+                    idle_ms=[0, 3000][t.choose(2, "prelude idle")])
         mon = RetryMonitor(w)
         trig = SilenceTrigger(w, t)
         w.monitors.extend([trig, mon])
